@@ -453,6 +453,9 @@ func lockBudget(r *Result) int64 {
 	if r.Thorough {
 		return 1 << 60
 	}
+	if r.LockBudgetMs > 0 {
+		return r.LockBudgetMs // option lockbudget=<seconds>: decided by the split stages, slower than the default budget but stable
+	}
 	if r.BudgetMs > 0 {
 		return r.BudgetMs / 4
 	}
